@@ -1,0 +1,12 @@
+//go:build verif
+
+package caco3
+
+import "time"
+
+// VerifCacheClock, when set, is the clock of every build cache opened
+// afterwards (creation time of entries and expiry test). Verification
+// harnesses use it to let a history cross the cache's expiry.
+var VerifCacheClock func() time.Time
+
+func verifCacheClock() func() time.Time { return VerifCacheClock }
